@@ -135,7 +135,7 @@ def run(ctx):
                 continue
             ncoq += len(shards[ix])
             for t in [t for t in m.group(1).replace('\n', ' ').split(';') if t.strip()]:
-                disagree.append(shards[ix][int(t.strip())])
+                disagree.append(shards[ix][int(t.strip().replace('%nat', ''))])
     if disagree:
         ctx.corr_broken.append('Coq model bf_write_num / spec_write_num disagrees with the compiled macro on %d cases' % len(disagree))
         ctx.notes.append('first disagreeing case: %r' % (disagree[0],))
